@@ -176,8 +176,12 @@ func c06Layout(c *Ctx, p *Prog, m *Model, mr *ModeReach) {
 	// attributes: key=value with ' ' separator in colored mode
 	if sa := p.Func(p.Slog, "serializeAttrs"); sa != nil {
 		sep := false
+		inRegion := map[ssa.Instruction]bool{}
+		for _, site := range modeRegionCalls(p, mr, sa) {
+			inRegion[site.Instr] = true
+		}
 		for _, ce := range mr.constEmissions() {
-			if ce.Fn == sa && ce.Text == " " {
+			if inRegion[ce.Instr] && ce.Text == " " {
 				sep = true
 			}
 		}
